@@ -6,7 +6,7 @@ from .. import AnalysisError
 from ..report import Ob
 from ..cfg import calls_at, call_attr, is_self_attr, recv_text
 from ..state import Analysis, State, TOP
-from ..norm import Normalizer, cmp_norm, FrameEnv
+from ..norm import Normalizer, cmp_norm, cmp_polarity, FrameEnv
 from .. import inventory as inv
 from .. import devices as dv
 from .c02 import foreign_deleg_call, construct_and_initialize
@@ -15,8 +15,10 @@ EXPLANATION = '''
 Static analysis of PartBatcher (part_batcher.py) with a small container model -- the input is a single part or a batch whose
 length is abstracted to 0/1/many, the batch under construction exists or not -- plus Batch (batch.py) and the part counters.
 Decided: (C17.1) input batches are unpacked from the front (parts.pop(0)) and output batches are built at the back
-(parts.append); (C17.2) the batch under construction becomes the output exactly on the true edge of
-len(batch.parts) - n >= 0 and the construction slot is emptied with it; in single mode the part itself becomes the output;
+(parts.append); (C17.2) a ghost follows the batch under construction: every parts.append on it must be followed by the test
+equivalent to output_batch_size - len(batch.parts) <= 0 (normal form, either polarity, receivers classified by the value they
+hold rather than by spelling), the true edge must make that batch the output and empty the construction slot, the false edge
+must keep it; no other path may emit or drop it; in single mode the part itself becomes the output;
 (C17.3) pop(0) is never reached on an empty input batch; an input batch is discarded only when it is empty; (C17.4) the
 batcher invariant "something left to unpack => an output is waiting" is inductive over all entry points, i.e. unpacking
 continues after the output left and new input is accepted only when nothing is left to unpack and nothing waits;
@@ -29,34 +31,74 @@ NOT decided: sequence equality over a stream of parts (the order argument is the
 ASSUMPTIONS = ['user code does not mutate a batch while the batcher holds it']
 MIN_INSTANCES = 150
 
-TR = ['_part', '_output', '_is_shut_down', '_block_input', '_in_progress_batch', '_output_batch_size', '#pk', '#bl', '#hand']
+TR = ['_part', '_output', '_is_shut_down', '_block_input', '_in_progress_batch', '_output_batch_size', '#pk', '#bl', '#hand', '#fl']
 LEN = {'0': [0], '1': [1], 'M': [2, 3]}
 
 
-def batcher_hooks(P):
+IN_PARTS, OUT_PARTS = 'self._part.parts', 'self._in_progress_batch.parts'
+FULL_TERMS = {'len(self._in_progress_batch.parts)': -1, 'self._output_batch_size': 1}       # size - len <= 0
+
+
+def batcher_hooks(P, N, sites=None):
+    """hooks of the container model.  Receivers are classified by VALUE, not by spelling: a local that holds the input object
+    (token p0 / arg) is read as `self._part`, one that holds the batch under construction (token B) as `self._in_progress_batch`."""
     import operator
-    OPS = {'Gt': operator.gt, 'GtE': operator.ge, 'Lt': operator.lt, 'LtE': operator.le, 'Eq': operator.eq, 'NotEq': operator.ne}
+    OPS = {'<': operator.lt, '<=': operator.le, '==': operator.eq, '!=': operator.ne}
+    sites = {} if sites is None else sites
+
+    def canon(an, e, st, frame):
+        class T(ast.NodeTransformer):
+            def visit_Name(self, x):
+                v = st.locals.get((frame.id, x.id))
+                if v == 'B':
+                    return ast.copy_location(ast.parse('self._in_progress_batch', mode='eval').body, x)
+                if v in ('p0', 'arg') and (st.fields.get('_part') == v or (v == 'arg' and not dv.full(st.fields.get('_part')))):
+                    return ast.copy_location(ast.parse('self._part', mode='eval').body, x)
+                return x
+        if not any(isinstance(x, ast.Name) and st.locals.get((frame.id, x.id)) in ('B', 'p0', 'arg') for x in ast.walk(e)):
+            return e
+        import copy
+        return ast.fix_missing_locations(T().visit(copy.deepcopy(e)))
 
     def refine(an, test, truth, st, frame):
-        t = test
+        t = canon(an, test, st, frame)
         if isinstance(t, ast.Call) and ast.unparse(t.func) == 'isinstance' and len(t.args) == 2 and is_self_attr(t.args[0], '_part') and ast.unparse(t.args[1]) == 'Batch':
             cur = st.fields['#pk']
             want = 'batch' if truth else 'single'
             if cur in ('batch', 'single') and cur != want:
                 return None
             return st.with_field('#pk', want) if cur != want else st
-        if isinstance(t, ast.Compare) and len(t.ops) == 1 and ast.unparse(t.left) == 'len(self._part.parts)' and isinstance(t.comparators[0], ast.Constant):
-            op, k = type(t.ops[0]).__name__, t.comparators[0].value
-            b = st.fields['#bl']
-            if op in OPS and b in LEN:
-                poss = [v for v in LEN[b] if OPS[op](v, k) == truth]
-                return st if poss else None
+        if isinstance(t, ast.Compare) and len(t.ops) == 1 and 'parts' in ast.unparse(t):
+            r = cmp_norm(N, t, FrameEnv(frame), truth)
+            if r is not None and set(r[0].terms) == {f'len({IN_PARTS})'}:
+                b = st.fields['#bl']
+                k = r[0].terms[f'len({IN_PARTS})']
+                if b in LEN:
+                    poss = [v for v in LEN[b] if OPS[r[1]](k * v + r[0].const, 0)]
+                    return st if poss else None
+            pol = cmp_polarity(N, t, FrameEnv(frame), FULL_TERMS, '<=') or cmp_polarity(N, t, FrameEnv(frame), FULL_TERMS, '==')
+            if pol:
+                full = (pol == 1) == truth
+                cur = st.fields['#fl']
+                if cur == '?':
+                    return st.with_field('#fl', 'T' if full else 'F')
+                if cur == '-':
+                    # nothing appended since the batch last rested: at rest it holds fewer than n parts (C17.4 invariant)
+                    return None if full else st
+                return st if (cur == 'T') == full else None
+            if OUT_PARTS in ast.unparse(t) or IN_PARTS in ast.unparse(t):
+                return st.with_flag('UNKNOWN-LENGTH-TEST')
         return NotImplemented
 
     def expr(an, e, st, frame):
-        if isinstance(e, ast.Call) and call_attr(e) in ('pop', 'popleft') and ast.unparse(e.func.value) == 'self._part.parts':
+        if isinstance(e, ast.Call) and call_attr(e) in ('pop', 'popleft') and isinstance(e.func, ast.Attribute) and ast.unparse(canon(an, e.func.value, st, frame)) == IN_PARTS:
             return 'u'
         return NotImplemented
+
+    def settle(st):
+        if st.fields['#fl'] == 'T' and st.fields['_output'] == 'B' and st.fields['_in_progress_batch'] == 'N':
+            return st.with_field('#fl', '-').with_flag('closed-when-full')
+        return st
 
     def node(an, n, before, after):
         st = after
@@ -65,8 +107,15 @@ def batcher_hooks(P):
         if n.kind not in ('stmt', 'return'):
             return st
         for cl in calls_at(an.g, n):
-            rv = recv_text(cl)
-            if call_attr(cl) in ('pop', 'popleft', 'remove') and rv == 'self._part.parts':
+            if not (isinstance(cl.func, ast.Attribute) and isinstance(cl.func.value, ast.Attribute) and cl.func.value.attr == 'parts'):
+                continue
+            rv = ast.unparse(canon(an, cl.func.value, before, n.frame))
+            nm = call_attr(cl)
+            key = (cl.lineno, cl.col_offset)
+            front = (nm == 'pop' and len(cl.args) == 1 and isinstance(cl.args[0], ast.Constant) and cl.args[0].value == 0) or (nm == 'popleft' and not cl.args)
+            okc = (rv == IN_PARTS and front) or (rv == OUT_PARTS and nm == 'append' and len(cl.args) == 1)
+            sites.setdefault(key, set()).add(bool(okc))
+            if nm in ('pop', 'popleft', 'remove') and rv == IN_PARTS:
                 b = st.fields['#bl']
                 if st.fields['#hand'] == 'u':
                     st = st.with_flag('DROPPED')
@@ -77,11 +126,12 @@ def batcher_hooks(P):
                     st = st.with_field('#bl', '0')
                 else:
                     outs = [st.with_field('#bl', '1'), st.with_field('#bl', 'M')]
-            if call_attr(cl) in ('append', 'insert', 'appendleft') and rv == 'self._in_progress_batch.parts':
+            if nm in ('append', 'insert', 'appendleft', 'extend') and rv == OUT_PARTS:
                 v = an.ev(cl.args[-1], before, n.frame) if cl.args else TOP
-                for s_ in (outs or [st]):
-                    pass
                 def place(s_):
+                    if s_.fields['#fl'] in ('?', 'T'):
+                        s_ = s_.with_flag('APPEND-UNTESTED')
+                    s_ = s_.with_field('#fl', '?')
                     if v == 'u':
                         if s_.fields['#hand'] != 'u':
                             return s_.with_flag('DUPLICATED')
@@ -98,6 +148,12 @@ def batcher_hooks(P):
                     st = st.with_flag('DUPLICATED')
                 st = st.with_field('#hand', 'N')
                 outs = [st] if outs is None else outs
+            if v == 'B' and before.fields['#fl'] != 'T':
+                st = st.with_flag('CLOSED-NOT-FULL')
+                outs = None
+        if n.kind == 'stmt' and isinstance(a, ast.Assign) and any(is_self_attr(t, '_in_progress_batch') for t in a.targets) \
+                and before.fields['_in_progress_batch'] == 'B' and after.fields['_in_progress_batch'] != 'B' and before.fields['#fl'] != 'T':
+            st = st.with_flag('CONSTRUCTION-DISCARDED')
         if n.kind == 'stmt' and isinstance(a, ast.Assign) and any(is_self_attr(t, '_part') for t in a.targets) \
                 and isinstance(a.value, ast.Constant) and a.value.value is None and before.fields['_part'] not in ('N', TOP):
             if before.fields['#pk'] == 'batch' and before.fields['#bl'] != '0':
@@ -105,7 +161,9 @@ def batcher_hooks(P):
             if before.fields['#pk'] == 'batch':
                 st = st.with_flag('container-dropped:' + before.fields['_part'])
             outs = None
-        return outs if outs and len(outs) > 1 else st
+        if outs and len(outs) > 1:
+            return [settle(s_) for s_ in outs]
+        return settle(st)
     return refine, expr, node
 
 
@@ -117,96 +175,15 @@ def check(ctx):
     N = Normalizer(P, c)
     obs = []
 
-    # ---- C17.1 -----------------------------------------------------------------------------------
-    o = Ob('C17.1', 'K7', 'input batches are unpacked from the front (parts.pop(0)); output batches are built at the back (parts.append)')
-    obs.append(o)
-    for m_, c_, f in inv.functions(P):
-        if c_ is not c:
-            continue
-        for x in ast.walk(f):
-            if isinstance(x, ast.Call) and isinstance(x.func, ast.Attribute) and isinstance(x.func.value, ast.Attribute) and x.func.value.attr == 'parts':
-                o.count()
-                owner = ast.unparse(x.func.value.value)
-                nm = x.func.attr
-                okc = (owner == 'self._part' and nm == 'pop' and len(x.args) == 1 and isinstance(x.args[0], ast.Constant) and x.args[0].value == 0) or \
-                      (owner == 'self._part' and nm == 'popleft') or (owner == 'self._in_progress_batch' and nm == 'append' and len(x.args) == 1)
-                if okc:
-                    o.witness((f.name, nm))
-                else:
-                    o.fail(P, f'PartBatcher.{f.name}', x, 'the order of parts is not preserved: input batches must be unpacked with parts.pop(0) and output batches built with parts.append(part)',
-                           file=c.mod.path, line=x.lineno)
-    o.require(len(o.nontrivial) >= 2, 'the unpack (pop(0)) and build (append) sites of PartBatcher were not both found')
-
-    # ---- C17.2 -------------------------------------------------------------------------------------
-    o = Ob('C17.2', 'K6+K5', 'the batch under construction becomes the output exactly on the true edge of len(batch.parts) - n >= 0, and the construction slot is emptied; '
-                             'in single mode the part itself becomes the output')
-    obs.append(o)
-    g = ctx.graph(c, '_add_part_to_output')
-    fn = P.method(c, '_add_part_to_output')[1]
-    pn = fn.args.args[1].arg
-    closes = [n for n in g.nodes.values() if n.kind == 'stmt' and isinstance(n.ast, ast.Assign) and any(is_self_attr(t, '_output') for t in n.ast.targets)
-              and is_self_attr(n.ast.value, '_in_progress_batch')]
-    singles = [n for n in g.nodes.values() if n.kind == 'stmt' and isinstance(n.ast, ast.Assign) and any(is_self_attr(t, '_output') for t in n.ast.targets)
-               and ast.unparse(n.ast.value) == pn]
-    guards = []
-    for n in g.nodes.values():
-        if n.kind == 'cond':
-            for truth in (True, False):
-                r = cmp_norm(N, n.ast, FrameEnv(n.frame), truth)
-                if r and r[1] == '<=' and r[0].is_({'len(self._in_progress_batch.parts)': -1, 'self._output_batch_size': 1}):
-                    guards.append((n, truth))
-    o.count()
-    if len(closes) != 1 or not guards:
-        o.fail(P, 'PartBatcher._add_part_to_output', 'if len(self._in_progress_batch.parts) >= self._output_batch_size: self._output = self._in_progress_batch',
-               'the output batch is not closed under the guard len(batch.parts) >= output_batch_size', file=c.mod.path, line=fn.lineno,
-               detail={'conditions': [n.src() for n in g.nodes.values() if n.kind == 'cond']})
-    else:
-        gn, truth = guards[0]
-        full_lbl = 'T' if truth else 'F'
-        cn = closes[0]
-        if cn.id in g.reach_edges([g.entry], cut_edges={(gn.id, full_lbl)}):
-            o.fail(P, 'PartBatcher._add_part_to_output', None, 'a batch can be emitted before it holds output_batch_size parts', node=cn)
-        an = Analysis(P, g, ['_output', '_in_progress_batch', '_output_batch_size'])
-        for ipb in 'NS':
-            s0 = State({'_output': 'N', '_in_progress_batch': ipb, '_output_batch_size': 'S'})
-            s0.locals[(g.top.id, pn)] = 'u'
-            res = ctx.explore(an, [s0])
-            for st in res.exits():
-                o.count()
-                closed = any(x.id == cn.id for x in res.path(g.exit, st))
-                took_full = any(x.id == gn.id and [l for l, m in g.succ[gn.id] if m == y.id][:1] == [full_lbl]
-                                for x, y in zip(res.path(g.exit, st), res.path(g.exit, st)[1:]))
-                if took_full:
-                    o.witness('full')
-                if took_full != closed or (closed and (st.fields['_in_progress_batch'] != 'N' or st.fields['_output'] != 'S')) or \
-                        (not closed and (st.fields['_output'] != 'N' or st.fields['_in_progress_batch'] != 'S')):
-                    o.fail(P, 'PartBatcher._add_part_to_output', None, f'when the batch under construction is {"full" if took_full else "not yet full"} the batcher leaves output={st.fields["_output"]}, '
-                           f'construction slot={st.fields["_in_progress_batch"]}; a full batch must become the output and free the slot, an incomplete one must stay',
-                           node=cn, path=res.path_lines(g.exit, st))
-        s0 = State({'_output': 'N', '_in_progress_batch': 'N', '_output_batch_size': 'N'})
-        s0.locals[(g.top.id, pn)] = 'u'
-        res = ctx.explore(an, [s0])
-        for st in res.exits():
-            o.count()
-            o.witness('single-mode')
-            if st.fields['_output'] != 'u' or st.fields['_in_progress_batch'] != 'N':
-                o.fail(P, 'PartBatcher._add_part_to_output', singles[0].ast if singles else f'self._output = {pn}', 'in single-part mode the part itself must become the output',
-                       file=c.mod.path, line=fn.lineno, path=res.path_lines(g.exit, st))
-        o.sample({'close_guard': gn.src(), 'normal_form': 'output_batch_size - len(batch.parts) <= 0', 'line': gn.line})
-    init = P.method(c, '__init__')[1]
-    o.count()
-    if not any(isinstance(x, ast.Assert) and 'output_batch_size > 0' in ast.unparse(x.test) for x in ast.walk(init)):
-        o.fail(P, 'PartBatcher.__init__', 'assert output_batch_size == None or output_batch_size > 0', 'a non-positive batch size is not rejected', file=c.mod.path, line=init.lineno)
-    for s in inv.attr_stores(P, '_output_batch_size'):
-        o.count()
-        if not (s.cls is c and s.func.name == '__init__'):
-            o.fail(P, s.ctx, s.stmt, 'the output batch size changes after construction', file=s.mod.path, line=s.line)
-
     # ---- C17.3 / C17.4 / C17.8 on one exploration -------------------------------------------------------
+    o2 = Ob('C17.2', 'K6+K5', 'the batch under construction becomes the output exactly on the true edge of len(batch.parts) - n >= 0, and the construction slot is emptied; '
+                              'in single mode the part itself becomes the output; a batch is never appended to without the test that follows')
+    obs.append(o2)
+    sites = {}
     o3 = Ob('C17.3', 'K5', 'pop(0) is never reached on an empty input batch; an input batch is discarded only when empty')
     o4 = Ob('C17.4', 'K5', 'batcher invariant, inductive over all entry points: something left to unpack => an output is waiting; a held batch is never empty at rest')
     o8 = Ob('C17.8', 'K2', 'every part taken from the input is placed in the output or the batch under construction before the next is taken; the single input part is conserved')
-    refine, expr, node = batcher_hooks(P)
+    refine, expr, node = batcher_hooks(P, N, sites)
 
     def inv_(f):
         p, o_ = f['_part'], f['_output']
@@ -222,15 +199,15 @@ def check(ctx):
             return False
         if dv.full(p) and f['#pk'] == '-':
             return False
-        if f['_in_progress_batch'] == 'S' and f['_output_batch_size'] == 'N':
+        if f['_in_progress_batch'] == 'B' and f['_output_batch_size'] == 'N':
             return False
-        return f['#hand'] == 'N'
-    dom = {'_part': ['N', 'p0'], '_output': ['N', 'o0'], '_is_shut_down': ['F'], '_block_input': ['F'], '_in_progress_batch': ['N', 'S'],
-           '_output_batch_size': ['N', 'S'], '#pk': ['-', 'single', 'batch'], '#bl': ['-', '0', '1', 'M'], '#hand': ['N']}
+        return f['#hand'] == 'N' and f['#fl'] == '-'
+    dom = {'_part': ['N', 'p0'], '_output': ['N', 'o0'], '_is_shut_down': ['F'], '_block_input': ['F'], '_in_progress_batch': ['N', 'B'],
+           '_output_batch_size': ['N', 'S'], '#pk': ['-', 'single', 'batch'], '#bl': ['-', '0', '1', 'M'], '#hand': ['N'], '#fl': ['-']}
     ents = dv.entries_of(P, c)
     for e in sorted(ents):
         g = ctx.graph(c, e)
-        an = Analysis(P, g, TR, call_models={'Batch': 'S'})
+        an = Analysis(P, g, TR, call_models={'Batch': 'B'})
         an.refine_hooks.append(refine)
         an.expr_hooks.append(expr)
         an.node_hooks.append(node)
@@ -247,10 +224,31 @@ def check(ctx):
                     s0.locals[(g.top.id, 'part')] = 'arg'
                 res = ctx.explore(an, [s0])
                 for st in res.exits():
-                    o3.count(); o4.count(); o8.count()
+                    o2.count(); o3.count(); o4.count(); o8.count()
                     f = dict(st.fields)
                     if not dv.full(f['_part']):
                         f['#pk'], f['#bl'] = '-', '-'
+                    bad2 = [fl for fl in ('CLOSED-NOT-FULL', 'CONSTRUCTION-DISCARDED', 'APPEND-UNTESTED', 'UNKNOWN-LENGTH-TEST') if fl in st.flags]
+                    if f['#fl'] == 'T':
+                        bad2.append('FULL-NOT-CLOSED')
+                    if f['#fl'] == '?':
+                        bad2.append('APPEND-UNTESTED')
+                    if bad2:
+                        why = {'CLOSED-NOT-FULL': 'a batch can be emitted before it holds output_batch_size parts',
+                               'CONSTRUCTION-DISCARDED': 'the batch under construction is dropped from its slot before it is full',
+                               'APPEND-UNTESTED': 'a part is added to the batch under construction and its size is not compared with output_batch_size afterwards (the batch can grow beyond n)',
+                               'UNKNOWN-LENGTH-TEST': 'a batch length is tested in a form that is not len(batch.parts) >= output_batch_size',
+                               'FULL-NOT-CLOSED': 'the batch under construction is full and does not become the output with the construction slot emptied'}
+                        ln = dv.last_node(res, g.exit, st, lambda n: n.kind in ('stmt', 'cond') and ('_in_progress_batch' in n.src() or '.parts' in n.src() or '_output' in n.src()))
+                        o2.fail(P, f'PartBatcher.{e}', ln.ast if ln else e, '; '.join(why[b_] for b_ in sorted(set(bad2))) + f': entry {s0.show()} -> exit {st.show()}',
+                                node=ln, file=c.mod.path, path=res.path_lines(g.exit, st))
+                    if 'closed-when-full' in st.flags:
+                        o2.witness('full')
+                    if f['#fl'] == 'F':
+                        o2.witness('not-full')
+                        f['#fl'] = '-'
+                    if fv['_output_batch_size'] == 'N' and fv['_output'] == 'N' and st.fields['_output'] in ('u', 'p0', 'arg'):
+                        o2.witness('single-mode')
                     if 'POP-FROM-EMPTY' in st.flags or 'BATCH-DISCARDED-NONEMPTY' in st.flags:
                         ln = dv.last_node(res, g.exit, st, lambda n: n.kind == 'stmt' and ('.pop(' in n.src() or 'self._part = None' in n.src()))
                         o3.fail(P, f'PartBatcher.{e}', ln.ast if ln else e, 'a part is taken from an input batch that may be empty' if 'POP-FROM-EMPTY' in st.flags
@@ -301,6 +299,42 @@ def check(ctx):
     o4.sample({'invariant': '_part full => _output full; held batch non-empty; nothing in hand at rest'})
     o8.sample({'ghost': '#hand: set by parts.pop(0), cleared by _output = part / parts.append(part)'})
     obs += [o3, o4]
+    # ---- C17.2 -------------------------------------------------------------------------------------
+    init = P.method(c, '__init__')[1]
+    o2.count()
+    if not any(isinstance(x, ast.Assert) and 'output_batch_size > 0' in ast.unparse(x.test) for x in ast.walk(init)):
+        o2.fail(P, 'PartBatcher.__init__', 'assert output_batch_size == None or output_batch_size > 0', 'a non-positive batch size is not rejected', file=c.mod.path, line=init.lineno)
+    for s in inv.attr_stores(P, '_output_batch_size'):
+        o2.count()
+        if not (s.cls is c and s.func.name == '__init__'):
+            o2.fail(P, s.ctx, s.stmt, 'the output batch size changes after construction', file=s.mod.path, line=s.line)
+    o2.require({'full', 'not-full', 'single-mode'} <= set(o2.nontrivial), f'the closing of a full batch, the keeping of an incomplete one and single mode were not all explored: {sorted(map(str, o2.nontrivial))}')
+    o2.sample({'ghost': '#fl: "?" after parts.append on the batch under construction, T/F on the edges of the test equivalent to  output_batch_size - len(batch.parts) <= 0, '
+                        '"-" once the full batch is the output and the construction slot is empty'})
+
+    # ---- C17.1 -----------------------------------------------------------------------------------
+    o = Ob('C17.1', 'K7', 'input batches are unpacked from the front (parts.pop(0)); output batches are built at the back (parts.append)')
+    obs.insert(0, o)
+    for m_, c_, f in inv.functions(P):
+        if c_ is not c:
+            continue
+        for x in ast.walk(f):
+            if isinstance(x, ast.Call) and isinstance(x.func, ast.Attribute) and isinstance(x.func.value, ast.Attribute) and x.func.value.attr == 'parts':
+                o.count()
+                owner = ast.unparse(x.func.value.value)
+                nm = x.func.attr
+                okc = (owner == 'self._part' and nm == 'pop' and len(x.args) == 1 and isinstance(x.args[0], ast.Constant) and x.args[0].value == 0) or \
+                      (owner == 'self._part' and nm == 'popleft' and not x.args) or (owner == 'self._in_progress_batch' and nm == 'append' and len(x.args) == 1)
+                # receivers spelled through locals are classified by the value they hold on every explored path through the site
+                seen = sites.get((x.lineno, x.col_offset))
+                if okc or (seen and seen == {True}):
+                    o.witness((f.name, nm))
+                else:
+                    o.fail(P, f'PartBatcher.{f.name}', x, 'the order of parts is not preserved: input batches must be unpacked with parts.pop(0) and output batches built with parts.append(part)'
+                           + ('' if seen else ' (the receiver is neither the input nor the batch under construction on any explored path)'),
+                           file=c.mod.path, line=x.lineno)
+    o.require(len(o.nontrivial) >= 2, 'the unpack (pop(0)) and build (append) sites of PartBatcher were not both found')
+
 
     # ---- C17.5 / C17.6 ---------------------------------------------------------------------------------------
     o = Ob('C17.5', 'K9', 'the batcher accepts only through the unweakened base acceptance test (both slots empty, not blocked)')
